@@ -26,7 +26,7 @@ type roundPlan struct {
 	Corrupt []string `json:"x,omitempty"` // corruption names; empty = faithful call data
 	Receipt string   `json:"r,omitempty"` // "" = ok
 	Early   int      `json:"e,omitempty"` // signatures collected before the relay (0 = all validators)
-	Used    int      `json:"u,omitempty"` // signatures put into the tx (0 = all collected so far)
+	Used    int      `json:"u,omitempty"` // signatures put into the tx (0 = all collected so far, -1 = none)
 	Late    int      `json:"l,omitempty"` // signatures added after the relay
 	Reuse   string   `json:"reuse,omitempty"`
 	PA      string   `json:"pa,omitempty"` // valset id named by the relayer: "" faithful | "older" | "zero" | "unknown"
@@ -347,8 +347,11 @@ func (w *wd) prepare(ref string, id uint64, p roundPlan, forced *usedTx) *prepar
 		a.NSigsUsed = len(forced.Signers)
 	} else {
 		used := p.Used
-		if used <= 0 || used > nEarly {
+		if used == 0 || used > nEarly {
 			used = nEarly
+		}
+		if used < 0 {
+			used = 0 // the empty prefix: valset but no signature at all
 		}
 		if action == actUpload {
 			used = 0
@@ -365,6 +368,8 @@ func (w *wd) prepare(ref string, id uint64, p roundPlan, forced *usedTx) *prepar
 			// the relayer names a valset id the chain has no snapshot for: the only call data that
 			// could be "re-encoded" carries no validator set and no signatures
 			class = append(class, "no-such-valset:empty-consensus")
+		} else if used == 0 && action != actUpload {
+			class = append(class, "empty-signature-prefix")
 		} else if used < nEarly && action != actUpload {
 			class = append(class, "shorter-signature-prefix")
 		}
